@@ -73,7 +73,7 @@ structure Rec where
   signer : DName := []
   /-- RRSIG: labels field -/
   labels : Nat := 0
-  /-- DNSKEY: `calculate_key_tag()`; DS: key tag field -/
+  /-- DNSKEY: `calculate_key_tag()`; DS: key tag field; NSEC / NSEC3: 1 iff the type bitmap has SOA -/
   tag : Nat := 0
   /-- DNSKEY / DS: algorithm code -/
   alg : Nat := 0
@@ -564,5 +564,38 @@ def anchorKeyForeignOwner (env : Env) (trace : List (Query × UpOut)) : Bool :=
     match e.2 with
     | .ok m | .noRecords m => m.all.any fun r => r.rtype == tDNSKEY && env.anchor r.rid && !r.name.isRoot
     | _ => false
+
+/-! ## the concrete shape of the `covers` oracle (`DS::covers`, crates/proto/src/dnssec/rdata/ds.rs) -/
+
+/-- `key.to_digest(name, ds.digest_type()).map(|hash| key.zone_key() && hash.as_ref() == ds.digest())` with
+`unwrap_or(false)` at the call site: `hash` is `none` when the digest type is not supported -/
+def dsCovers (zoneKey : Bool) (hash : Option Bytes) (digest : Bytes) : Bool :=
+  match hash with
+  | some h => zoneKey && h == digest
+  | none => false
+
+/-- `C07.UnsignedNsecBesideSecureRecord` (open): an authority section with an NSEC record that has no RRSIG there while
+another RRset of the same owner has one -/
+def unsignedNsecBesideSignedIn (ns : List Rec) : Bool :=
+  ns.any fun r => r.rtype == tNSEC &&
+    !(ns.any fun x => x.isSig && x.name == r.name && x.covered == tNSEC) &&
+    ns.any fun x => !x.isSig && x.name == r.name && x.rtype != tNSEC &&
+      ns.any fun y => y.isSig && y.name == x.name && y.covered == x.rtype
+
+def unsignedNsecBesideSigned (trace : List (Query × UpOut)) : Bool :=
+  trace.any fun e =>
+    match e.2 with
+    | .ok m | .noRecords m => unsignedNsecBesideSignedIn m.ns
+    | _ => false
+
+/-- `C07.ChildSideDsDenialAccepted` (open): a DS exchange answered with an NSEC owned by the queried name, or an NSEC3,
+whose bitmap has SOA (`Rec.tag = 1` for NSEC / NSEC3 records) -/
+def childSideDsDenial (trace : List (Query × UpOut)) : Bool :=
+  trace.any fun e =>
+    e.1.qtype == tDS &&
+      match e.2 with
+      | .ok m | .noRecords m =>
+        m.ns.any fun r => r.tag == 1 && ((r.rtype == tNSEC && r.name == e.1.name) || r.rtype == tNSEC3)
+      | _ => false
 
 end HickoryVerif.Chain
